@@ -49,16 +49,7 @@ func ledgerScenario(w *World, p *Plan, rec *Record) {
 		}
 		w.finalProbes(snaps)
 	}
-	for _, n := range w.Nodes {
-		if n.Log != nil && n.Log.Truncs > 0 {
-			w.Probes["c07-weight-triggered-truncation-finished"] += int64(n.Log.Truncs)
-		}
-		if n.Log != nil && len(n.Log.Fatals) > 0 {
-			w.note("n%d would have crashed: %s", n.Idx, n.Log.Fatals[0])
-			w.probe("node-fatal-log")
-			w.violate("C08", "fatal", "background-loop-terminates-node", n.Idx, "%s", shortErr(n.Log.Fatals[0]))
-		}
-	}
+	w.checkFatal(false)
 	rec.Nontrivial = w.Probes["c01-confirmed-transfer-checked"] > 0
 }
 
@@ -170,3 +161,27 @@ func vertexSetDigest(s *Snap) string {
 }
 
 func init() { scenarios["ledger"] = ledgerScenario }
+
+// checkFatal: a node whose background loop logged a fatal error would have exited (the
+// harness logger records instead). After an injected storage error that is fail-stop
+// behaviour and only counted; otherwise the node was taken down by ordinary ledger traffic.
+func (w *World) checkFatal(storageFault bool) {
+	for _, n := range w.Nodes {
+		if n.Log != nil && n.Log.Truncs > 0 {
+			w.Probes["c07-weight-triggered-truncation-finished"] += int64(n.Log.Truncs)
+		}
+		if n.Log != nil && len(n.Log.Fatals) > 0 {
+			w.note("n%d would have crashed: %s", n.Idx, n.Log.Fatals[0])
+			w.probe("node-fatal-log")
+			if storageFault {
+				w.probe("node-fatal-after-injected-storage-error")
+				continue
+			}
+			if w.truncFailed[n.Idx] {
+				w.probe("node-fatal-after-failed-synchronous-truncation")
+				continue
+			}
+			w.violate("C08", "fatal", "background-loop-terminates-node", n.Idx, "%s", shortErr(n.Log.Fatals[0]))
+		}
+	}
+}
